@@ -658,6 +658,43 @@ def mmap_case(case, path, mode, originals, recs, stream):
             fail("mmap-r-is-writeable", sub, "")
         if mode in ("r+", "w+", "c") and l.size and not l.flags.writeable:
             fail("mmap-" + mode + "-not-writeable", sub, "")
+    # a NEW VERSION of the file published under the same path (write to a temporary + os.replace, what joblib.Memory's store
+    # does for every result) while the first mapping is still alive: a second load must show the new contents
+    if mode in ("r", "c"):
+        data = bytearray(before)
+        exp = []
+        for l, rec in zip(got, recs):
+            if rec["hasobject"] or not isinstance(l, np.memmap) or l.size == 0 or has_holes(l.dtype):
+                exp.append(None)
+                continue
+            at, n = rec["start"], l.dtype.itemsize
+            new = bytes((b ^ 0x5A) for b in data[at: at + n])
+            data[at: at + n] = new
+            exp.append(new)
+        if any(e is not None for e in exp):
+            tmp = path + ".newver"
+            with open(tmp, "wb") as f:
+                f.write(bytes(data))
+            os.replace(tmp, path)
+            back2 = None
+            try:
+                back2 = joblib.load(path, mmap_mode=mode)
+                for i, (l2, e) in enumerate(zip(walk(back2), exp)):
+                    if e is None:
+                        continue
+                    flat = l2.reshape(-1) if l2.flags.c_contiguous else l2.T.reshape(-1)
+                    if flat[0:1].tobytes() != e:
+                        fail("mmap-load-stale-after-the-file-was-replaced", dict(sub0, index=i),
+                             dict(first_element=hexs(flat[0:1].tobytes()), in_the_file_now=hexs(e)))
+                        break
+                ST.count("mmap-reload-after-replace")
+            except Exception as e:  # noqa: BLE001
+                fail("mmap-reload-raises:" + type(e).__name__, sub0, repr(e)[:200])
+            finally:
+                del back2
+                with open(tmp, "wb") as f:
+                    f.write(before)
+                os.replace(tmp, path)
     # write-through / copy-on-write, checked on the first non-empty non-object array
     for l, rec in zip(got, recs):
         if rec["hasobject"] or not isinstance(l, np.memmap) or l.size == 0 or not l.flags.writeable:
